@@ -167,7 +167,15 @@ let session (cs : cmdset) (handler : nat -> n list -> n list list -> hop list) c
   let ncalls = ref 0 in
   let handler' _ name args = let k = !ncalls in incr ncalls; handler (nat_of_int k) name args in
   let apply m = let (r, s') = m !st in st := s'; snapshot r in
-  apply (api_build okf);
+  (* a leading `X:<k>:<mode>` arms the fault before construction *)
+  let ops = if String.length ops > 2 && String.sub ops 0 2 = "X:" then begin
+      let rest = String.sub ops 2 (String.length ops - 2) in
+      let (spec, tail) = split_once ';' rest in
+      let (k, mode) = split_once ':' spec in
+      fail_at := int_of_string k; perm := (mode = "perm"); tail
+    end else ops in
+  let built = (let (r, s') = api_build okf !st in st := s'; snapshot r; r) in
+  if (match built with Err -> true | _ -> false) then String.concat " ; " (List.rev !out) else begin
   List.iter (fun op ->
     let (name, arg) = split_once ':' op in
     match name with
@@ -181,7 +189,7 @@ let session (cs : cmdset) (handler : nat -> n list -> n list list -> hop list) c
                fail_at := int_of_nat !st.sk.calls + int_of_string k; perm := (mode = "perm")
     | _ -> failwith "ses op")
     (List.filter (fun s -> s <> "") (split_on ';' ops));
-  String.concat " ; " (List.rev !out)
+  String.concat " ; " (List.rev !out) end
 
 (* ---- derived command sets: declarations are read from the file named by VERIF_DECLS (written by gen/declgen.py) *)
 let opt_hex t = if t = "~" then None else Some (unhex t)
